@@ -62,13 +62,13 @@ CLAIMS = {
             "explicit-state search over the real SpaceKeeper under a quiescence-based controlled scheduler (plotter gates H3, fake plot database); all action orders with canonical-state pruning",
             "qsched",
             "Real capacity.SpaceKeeper with 1-2 (thorough 3) workspaces in registered/ready initial states and a fake plot database; actions = plot/mine/stop/remove/delete per workspace and bulk forms (operation budget 2-3 quick / 3-4 thorough; one scenario of repeated plot/mine/stop requests for a single space with budget 4/5), release of each of the six plotter gates, plot completion/abort; every order explored (BFS, canonical state incl. queue, popped item, channel content, gates, pending calls, sticky-stop monitor). In every quiescent state: exactly-one-state and index consistency, at most one plotting, the 16 flag filters agree across WorkSpaceIDs/WorkSpaceInfos/states, GetProofs(mining) offers exactly the used mining spaces; every state change is a documented edge for the action taken; refused remove/delete change nothing; a stopped space does not enter plotting/mining (nor complete its plot) until asked again. Open findings: stop does not cancel outstanding requests (5 fingerprints).",
-            "API bodies are atomic under stateLock and the plotter's steps 1/3 hold it, so gate granularity covers every order observable through states; unsynchronised accesses between gates are not enumerated; skchia keeper (same plotter code) is not driven separately",
+            "API bodies are atomic under stateLock and the plotter's steps 1/3 hold it, so gate granularity covers every order observable through states; unsynchronised accesses between gates are not enumerated. Part skchia: the engine-v2 keeper over a fake MassDB, configured through the real ConfigureByFlags; the production-reachable family (all spaces Ready; 2-3 spaces; cfg none/plot/mine) is searched to a fixed point of the canonical state and decides; histories from Registered spaces (not constructible in skchia) are explored as diagnostics only",
             "DESIGN.md §C09"),
     "C13": ("model_checking",
             "explicit-state search over the real SpaceKeeper under the quiescence scheduler with small request-channel capacities; deadlock = pending call after drain, decided from goroutine wait reasons",
             "qsched",
             "As C09 with a request channel of capacity 0 and 1 (thorough 2 and 3 workspaces), up to 2 calls in flight, keeper.Stop() at any moment as an action; every terminal execution is drained (Stop issued, gates released, running plot completed): any call or Stop that has not returned is a deadlock; panics in calls or in the plotter (process death) are violations. Scenarios lockgates-*: the keeper's sync import is replaced by a shim whose RWMutex acquisitions are scheduling points, so other calls and plotter steps are ordered between the lock scopes of one call (bulk forms included; budget 2 quick / 3 thorough). Thorough adds a scripted history at the production channel capacity (1 025 requests). Open findings: PlotWS/MineWS send on the full channel while holding the state lock (2 fingerprints). Fixed finding: plotter popped from a queue emptied by a concurrent stop (panic).",
-            "capacity 0-2 stands for 1024 in the exhaustive part; Go's random select between quit and a ready request is handled by replay retries; unsynchronised accesses that are not lock acquisitions or plotter gates are not scheduling points",
+            "part skchia: as for C09 (requests, queries, keeper Stop/Start, 2 in flight; drained from every reached state); capacity 0-2 stands for 1024 in the exhaustive part; Go's random select between quit and a ready request is handled by replay retries; unsynchronised accesses that are not lock acquisitions or plotter gates are not scheduling points",
             "DESIGN.md §C13"),
     "C15": ("exploration",
             "bounded-exhaustive enumeration of existing-space multisets x configuration requests on the real keeper over real (header-only) plot files",
